@@ -337,7 +337,7 @@ func confuse(rt *rapid.T, root *yaml.Node) string {
 	set := func(x yaml.Node) { *n = x }
 	switch kind {
 	case "scalar":
-		set(yaml.Node{Kind: yaml.ScalarNode, Tag: "!!str", Value: rapid.SampledFrom([]string{"", "x", "@", "%", "%%%", "!value ", "!tagged ", "$gontainer", "@a.b", "<<", "~", "*"}).Draw(rt, "s")})
+		set(yaml.Node{Kind: yaml.ScalarNode, Tag: "!!str", Value: rapid.SampledFrom([]string{"", "x", "@", "%", "%%%", "!value ", "!tagged ", "!value", "!tagged", "!", "!value\t", "!tagged\n", "$gontainer", "$", "@a.b", "@ ", "<<", "~", "*", "!value &", "!value \"", "!value \".\".", "!tagged -"}).Draw(rt, "s")})
 	case "int":
 		set(yaml.Node{Kind: yaml.ScalarNode, Tag: "!!int", Value: rapid.SampledFrom([]string{"0", "-1", "9223372036854775807", "18446744073709551615", "99999999999999999999999", "0x7f", "0o17"}).Draw(rt, "i")})
 	case "float":
@@ -408,6 +408,29 @@ func confuse(rt *rapid.T, root *yaml.Node) string {
 	return kind
 }
 
+// specialFormBoundaries: every prefix and one-character extension of the special argument keywords, in every argument position.
+func specialFormBoundaries() []string {
+	var out []string
+	var strs []string
+	for _, kw := range []string{"!value", "!tagged", "@", "$gontainer"} {
+		for i := 1; i <= len(kw); i++ {
+			strs = append(strs, kw[:i])
+		}
+		for _, ext := range []string{" ", "\t", "x", " x", "  ", " &", " *", " \"\"", " ."} {
+			strs = append(strs, kw+ext)
+		}
+	}
+	for _, s := range strs {
+		q := strconv.Quote(s)
+		out = append(out,
+			"services:\n  s: {constructor: fx/lib.NewObj, arguments: ["+q+"]}\n",
+			"services:\n  s: {constructor: fx/lib.NewObj, fields: {A: "+q+"}, calls: [[M, ["+q+"]]]}\n",
+			"services:\n  s: {constructor: fx/lib.NewObj, tags: [t]}\ndecorators:\n  - {tag: t, decorator: fx/lib.Decorate, arguments: ["+q+"]}\n",
+			"parameters:\n  p: "+q+"\n")
+	}
+	return out
+}
+
 var c12Hostile = []string{
 	"", "%", "%%%", "@", "!value ", "!tagged ", "<<: {a: 1}\n", "a: &x [*x]\n", "services: {\"\": {}}\n", "parameters: {\"\": \"\"}\n",
 	"services:\n  s:\n    calls: [[]]\n", "services:\n  s:\n    calls: [[1, 2, 3, 4]]\n", "services:\n  s:\n    tags: [{priority: 1e99}]\n",
@@ -463,6 +486,9 @@ func FuzzC12(f *testing.F) {
 	for i, s := range c12Hostile {
 		f.Add([]byte(s), uint8(i), uint8(i))
 	}
+	for _, s := range specialFormBoundaries() {
+		f.Add([]byte(s), uint8(0), uint8(0))
+	}
 	for _, ft := range features() {
 		c := baseConfig()
 		ft.apply(&c, 0)
@@ -497,6 +523,9 @@ func TestC12(t *testing.T) {
 	seeds = append(seeds, repoYAML()...)
 	seeds = append(seeds, corpusFiles()...)
 	for _, s := range c12Hostile {
+		seeds = append(seeds, []byte(s))
+	}
+	for _, s := range specialFormBoundaries() {
 		seeds = append(seeds, []byte(s))
 	}
 	for i, s := range seeds {
